@@ -69,6 +69,14 @@ KERNELS = [
     dict(name="uniform_crossover", file="utils/crossovers.py", func="uniform_crossover",
          params=[("individs", "Mat"), ("fitness", "Arr"), ("rank", "Arr")], ret="Arr", streams=True,
          ext={"random_sample": ("sampled", "Arr")}),
+    dict(name="uniform_proportional_crossover", file="utils/crossovers.py", func="uniform_proportional_crossover",
+         params=[("individs", "Mat"), ("fitness", "Arr"), ("rank", "Arr")], ret="Arr", streams=True,
+         ext={"random_weighted_sample": ("sampled", "Arr")}),
+    dict(name="uniform_rank_crossover", file="utils/crossovers.py", func="uniform_rank_crossover",
+         params=[("individs", "Mat"), ("fitness", "Arr"), ("rank", "Arr")], ret="Arr", streams=True,
+         ext={"random_weighted_sample": ("sampled", "Arr")}),
+    dict(name="empty_crossover", file="utils/crossovers.py", func="empty_crossover",
+         params=[("individs", "Mat"), ("fitness", "Arr"), ("rank", "Arr")], ret="Arr"),
     dict(name="sattolo_shuffle", file="utils/random.py", func="sattolo_shuffle",
          params=[("arr", "Arr")], ret="Arr", streams=True),
     dict(name="random_sample", file="utils/random.py", func="random_sample",
